@@ -1,11 +1,11 @@
 package c03
 
 import (
-	"fmt"
 	"testing"
 
 	"pgregory.net/rapid"
 
+	"verif/internal/big"
 	"verif/internal/h"
 	"verif/internal/ops"
 	"verif/internal/ref"
@@ -23,44 +23,7 @@ type HugeCase struct {
 	Indexed bool   `json:"indexed"`
 }
 
-func hugeStart(c HugeCase) *ref.Node {
-	tip := func(i int) *ref.Node { return &ref.Node{Name: fmt.Sprintf("t%d", i), Len: ref.F(0.5 + float64(i%4))} }
-	switch c.Shape {
-	case "star":
-		r := &ref.Node{}
-		for i := 0; i < c.N; i++ {
-			r.Ch = append(r.Ch, tip(i))
-		}
-		return r
-	case "wide":
-		// an inner node with N-4 children below a small tree
-		w := &ref.Node{Len: ref.F(1), Sup: ref.F(0.5)}
-		for i := 0; i < c.N-4; i++ {
-			w.Ch = append(w.Ch, tip(i))
-		}
-		return &ref.Node{Ch: []*ref.Node{w, {Len: ref.F(0.25), Ch: []*ref.Node{tip(c.N - 4), tip(c.N - 3)}}, tip(c.N - 2), tip(c.N - 1)}}
-	case "caterpillar":
-		cur := &ref.Node{Len: ref.F(1), Ch: []*ref.Node{tip(0), tip(1)}}
-		for i := 2; i < c.N-1; i++ {
-			cur = &ref.Node{Len: ref.F(0.5), Sup: ref.F(float64(i%10) / 10), Ch: []*ref.Node{cur, tip(i)}}
-		}
-		return &ref.Node{Ch: []*ref.Node{cur.Ch[0], cur.Ch[1], tip(c.N - 1)}}
-	}
-	// bushy: nodes with 2..4 children, breadth first
-	nodes := []*ref.Node{}
-	for i := 0; i < c.N; i++ {
-		nodes = append(nodes, tip(i))
-	}
-	for k := 0; len(nodes) > 3; k++ {
-		d := 2 + k%3
-		if d > len(nodes)-2 {
-			d = 2
-		}
-		in := &ref.Node{Len: ref.F(0.125 * float64(1+k%5)), Ch: append([]*ref.Node(nil), nodes[:d]...)}
-		nodes = append(nodes[d:], in)
-	}
-	return &ref.Node{Ch: nodes}
-}
+func hugeStart(c HugeCase) *ref.Node { return big.Model(c.Shape, c.N) }
 
 func hugeCaseOf(c HugeCase) Case {
 	start := hugeStart(c)
